@@ -131,6 +131,35 @@ func factsHashring() {
 	}
 	emitStr("simpleGetNIndex", "pkg/receive/hashring.go simpleHashring.GetN: the index expression", sidx)
 
+	// ---- C27: multiHashring.GetN lock skeleton, what is cached, isExactMatcher
+	mget := fn(f, "multiHashring", "GetN")
+	emitList("multiGetNLocks", "pkg/receive/hashring.go multiHashring.GetN: lock calls in source order",
+		callSeq(body(mget), "m.mu.RLock", "m.mu.RUnlock", "m.mu.Lock", "m.mu.Unlock"))
+	var store []string
+	if b := body(mget); b != nil {
+		ast.Inspect(b, func(n ast.Node) bool {
+			switch x := n.(type) {
+			case *ast.AssignStmt:
+				if len(x.Lhs) == 1 && strings.HasPrefix(text(x.Lhs[0]), "m.cache[") {
+					store = append(store, text(x))
+				}
+			case *ast.ReturnStmt:
+				if len(x.Results) == 1 && strings.HasPrefix(text(x.Results[0]), "m.hashrings[") {
+					store = append(store, text(x.Results[0]))
+				}
+			}
+			return true
+		})
+	}
+	emitList("multiGetNStore", "pkg/receive/hashring.go multiHashring.GetN: the cache store and the answer on a match", store)
+	exact := "unknown"
+	if fe := fn(parse("pkg/receive/config.go"), "", "isExactMatcher"); fe != nil && fe.Body != nil && len(fe.Body.List) == 1 {
+		if r, ok := fe.Body.List[0].(*ast.ReturnStmt); ok && len(r.Results) == 1 {
+			exact = text(r.Results[0])
+		}
+	}
+	emitStr("isExactMatcherBody", "pkg/receive/config.go isExactMatcher", exact)
+
 	// ---- C20: what a section hash is computed from
 	hin := "unknown"
 	if b := body(fn(f, "", "newKetamaHashring")); b != nil {
